@@ -211,6 +211,36 @@ def nontrivial(case, impl):
     return None
 
 
+EXTRA_MODULES = ("Sentinel.Props.C01Pool",)
+GEN = "lean/Sentinel/Gen/PoolFacts.lean"
+
+
+def pregen():
+    """Delete and regenerate lean/Sentinel/Gen/PoolFacts.lean from $VERIF_REPO (DESIGN 6.C01 layer ii). Returns (ok, log).
+    Fails closed: if the extractor cannot be built or run, a table with an `unknown` row is written, which `pool_discipline` rejects."""
+    import os
+    from vlib import core
+    gen = os.path.join(core.ROOT, GEN)
+    os.makedirs(os.path.dirname(gen), exist_ok=True)
+    if os.path.exists(gen):
+        os.remove(gen)
+    os.makedirs(os.path.join(core.ROOT, ".build"), exist_ok=True)
+    exe = os.path.join(core.ROOT, ".build", "poolfacts01")
+    rc, so, se = core.sh(["go", "build", "-o", exe, "./internal/c01/poolfacts"], cwd=os.path.join(core.ROOT, "go"), env=core.goenv(), timeout=600)
+    log = so + se
+    if rc == 0:
+        rc, so, se = core.sh([exe, "-repo", core.REPO, "-lean", gen + ".tmp"], cwd=core.ROOT, env=core.goenv(), timeout=120)
+        log += so + se
+        if rc == 0 and os.path.exists(gen + ".tmp"):
+            os.replace(gen + ".tmp", gen)
+            return True, log
+    with open(gen, "w") as f:
+        f.write("import Sentinel.Model.PoolFacts\n/-! GENERATED placeholder: the extractor failed -/\nnamespace Sentinel.Gen.PoolFacts\n"
+                "open Sentinel.PoolFacts\ndef fields : List FieldRow := [⟨\"?\", \"?\", .ref, .unknown⟩]\n"
+                "def assigns : List AssignRow := []\ndef guards : Guards := ⟨false, false, false, false, false⟩\nend Sentinel.Gen.PoolFacts\n")
+    return False, log
+
+
 def run(ctx):
     """Standard flow, preceded by the variant selection of DESIGN.md 2.6: if the known finding panic-pass-gauge no longer
     reproduces on the tree under test (its replay ends with concurrency 0 instead of -1), the drivers are switched to the
@@ -220,6 +250,23 @@ def run(ctx):
     import sys
     from vlib import core, std
     os.environ.pop("VERIF_C01_FIX", None)
+    ok_gen, gen_log = pregen()
+    if not ok_gen:
+        ctx.log("poolfacts extractor failed (pool_discipline will not check):", gen_log[-300:])
+    else:
+        # which rows of the regenerated table break pool_discipline (empty on a disciplined tree)
+        tmp = os.path.join(core.LEAN, ".lake", "c01_offenders.lean")
+        ok_b, _ = core.lake_build(["Sentinel.Gen.PoolFacts"])
+        if ok_b:
+            with open(tmp, "w") as f:
+                f.write("import Sentinel.Gen.PoolFacts\nopen Sentinel.PoolFacts Sentinel.Gen.PoolFacts\n"
+                        "#eval IO.println (\"\\n\".intercalate (offenders fields assigns guards))\n")
+            rc, so, se = core.sh(["lake", "env", "lean", tmp], cwd=core.LEAN, timeout=300)
+            rows = [l for l in so.splitlines() if l.strip()]
+            ctx.cov["pool_facts_offenders"] = rows
+            for l in rows:
+                ctx.log("pool discipline broken:", l)
+            os.remove(tmp)
     binary, _ = core.build_harness()
     if binary is not None:
         p = os.path.join(core.ROOT, "replays", "known", "C01-panic-pass-gauge.ops")
@@ -239,15 +286,20 @@ META = {
                    "live entries, recording-slot call logs, the Entry outcome) equals the pool-free ledger recomputed from the history; "
                    "corollaries: pass+block tokens = requested tokens, exactly one completion per passed entry at its first Exit with its own "
                    "error and rt, none for blocked entries, late/double Exit and TraceError on an exited id leave the whole state unchanged, "
-                   "gauge = number of live passed entries >= 0 and 0 when idle. For the recovered-panic path the statement is false on the "
+                   "gauge = number of live passed entries >= 0 and 0 when idle; the account is independent of the interleaving of calls addressed to "
+                   "different entries (schedule_independent). The driver executes the model WITH the context pool (any free object may be handed "
+                   "out); pooled_refines_pool_free / pooled_refines_ledger show pooling is unobservable, and the regenerated table of how the code "
+                   "resets / assigns / aliases pooled fields re-proves pool_discipline on every run. For the recovered-panic path the statement is false on the "
                    "code: witness theorem + partial theorem outside the classified region (known finding panic-pass-gauge). The model is tied "
                    "to the code by running the same op files through api.Entry/TraceError/Exit (virtual clock, pinned P, GC off so that pool "
                    "reuse is deterministic) and the compiled Lean driver and comparing every observation."),
     "level_note": ("Trusted: Lean kernel; axioms propext/Classical.choice/Quot.sound; Go harness (custom slots wrapping the real prepare/stat "
-                   "slots, canonical printing, per-case epoch), virtual util.Clock. Modelled not verified: sync.Pool is abstracted away (the "
-                   "model owns one context per entry; the correspondence generator stresses pool reuse so a regression of the two pool repairs "
-                   "shows as impl != model), gauge as unbounded Int (int32 in the code), the verdict of the built-in rule slots is an input of "
-                   "the theorems (the driver instantiates it for isolation and hotspot rules), sequential histories only (goroutine schedules "
-                   "are C15's race run), panics inside user stat slots / exit handlers are outside the property's domain."),
+                   "slots, canonical printing, per-case epoch), virtual util.Clock; the poolfacts extractor (syntactic, fails closed). Modelled not "
+                   "verified: sync.Pool's implementation (modelled as an arbitrary choice among free objects or a new one), gauge as unbounded Int "
+                   "(int32 in the code), the verdict of the built-in rule slots is an input of the theorems (the driver instantiates it for "
+                   "isolation and hotspot rules). Goroutine schedules: every interleaving of whole API calls is a history covered by the theorems "
+                   "and the account is proved independent of it; interleavings inside concurrent calls are only tested (multi-goroutine soak, "
+                   "final account compared) - data races are C15's, bucket recycling under concurrent writers C09's. Panics inside user stat "
+                   "slots / exit handlers are outside the property's domain."),
     "design_ref": "DESIGN.md 6.C01",
 }
